@@ -30,6 +30,10 @@ type fScenario struct {
 	Ops         []fOp     `json:"ops"`
 	LeafMode    string    `json:"leaf_mode,omitempty"` // World.SetLeafMode
 	Share       bool      `json:"share,omitempty"`     // one block record per block, handed to every call without defensive copies
+	// Sparse: the observers make their queries only after about half of the operations (which ones is a
+	// function of Tag), so that an answer remembered from an earlier query is not refreshed by the monitor's
+	// own curiosity before the state it belongs to has come and gone (round 10, seeded change C13j).
+	Sparse bool `json:"sparse,omitempty"`
 }
 
 type fGenOpts struct {
@@ -60,9 +64,14 @@ func genForestScenario(rng *rand.Rand, tag uint64, cfgs []InstCfg, o fGenOpts) f
 	s := fScenario{Tag: tag, Cfgs: cfgs, FromRootsAt: -1}
 	m := &rm.Model{}
 	var stack []*rm.Model
+	var blks []gen.Block // blks[i] = the block applied on top of stack[i]
 	var ctr uint64
+	// decisions added in round 10 draw from their own stream, so that scenarios they do not touch stay what they were
+	aux := rand.New(rand.NewSource(int64(tag*0x9E3779B97F4A7C15 + 0x51ab)))
+	s.Sparse = aux.Intn(3) == 0
 	addBlock := func(b gen.Block) {
 		stack = append(stack, m.Clone())
+		blks = append(blks, b)
 		gen.ApplyToModel(m, b, tag, &ctr)
 		bb := b
 		op := fOp{Kind: "block", Block: &bb}
@@ -70,6 +79,30 @@ func genForestScenario(rng *rand.Rand, tag uint64, cfgs []InstCfg, o fGenOpts) f
 			op.Junk = true
 		}
 		s.Ops = append(s.Ops, op)
+	}
+	// fork appends a competing block (chain reorganisation): as many deletions and additions as the block
+	// just undone, but other leaves deleted - the two leave forests of the same leaf count and deletion
+	// count and, often, different shapes
+	fork := func(undone gen.Block) bool {
+		if len(undone.Dels) == 0 {
+			return false
+		}
+		var live []int
+		for sl, a := range m.Alive {
+			if a {
+				live = append(live, sl)
+			}
+		}
+		if len(live) <= len(undone.Dels) {
+			return false
+		}
+		aux.Shuffle(len(live), func(i, j int) { live[i], live[j] = live[j], live[i] })
+		fb := gen.Block{Dels: append([]int(nil), live[:len(undone.Dels)]...), Adds: undone.Adds}
+		for i := 0; i < fb.Adds; i++ {
+			fb.Remember = append(fb.Remember, aux.Intn(2) == 0)
+		}
+		addBlock(fb)
+		return true
 	}
 	for r := 0; r < o.Rounds; r++ {
 		nb := 1 + rng.Intn(6)
@@ -120,6 +153,14 @@ func genForestScenario(rng *rand.Rand, tag uint64, cfgs []InstCfg, o fGenOpts) f
 				}
 			}
 			addBlock(b)
+			if o.Undo && len(b.Dels) > 0 && aux.Intn(5) == 0 {
+				// reorganisation of the tip: the block is undone at once and a competing one takes its place
+				s.Ops = append(s.Ops, fOp{Kind: "undo", K: 1})
+				m = stack[len(stack)-1]
+				stack = stack[:len(stack)-1]
+				blks = blks[:len(blks)-1]
+				fork(b)
+			}
 		}
 		if o.Undo && len(stack) > 0 {
 			k := 1 + rng.Intn(len(stack))
@@ -132,7 +173,10 @@ func genForestScenario(rng *rand.Rand, tag uint64, cfgs []InstCfg, o fGenOpts) f
 			states := append(append([]*rm.Model(nil), stack...), m) // states[i] = model before block i; last = current
 			m = stack[len(stack)-k]
 			stack = stack[:len(stack)-k]
-			if o.Redo && rng.Intn(2) == 0 {
+			undone := blks[len(stack)] // the oldest of the k undone blocks
+			blks = blks[:len(stack)]
+			forked := aux.Intn(3) == 0 && fork(undone)
+			if !forked && o.Redo && rng.Intn(2) == 0 {
 				// the block undone last (the oldest of the k) is applied again from its own record,
 				// sometimes undone and applied a second time
 				n := 1 + rng.Intn(2)
@@ -143,6 +187,7 @@ func genForestScenario(rng *rand.Rand, tag uint64, cfgs []InstCfg, o fGenOpts) f
 					}
 				}
 				stack = append(stack, m)
+				blks = append(blks, undone)
 				m = states[len(stack)].Clone()
 			}
 		}
@@ -174,6 +219,8 @@ type fState struct {
 	LastRec   *BlockRec
 	Failed    bool
 	TouchedBy map[*Inst]bool // instances the op applied to
+	// Quiet: a sparse scenario asks the observers to do their bookkeeping but make no query after this op
+	Quiet bool
 }
 
 type fObserver func(st *fState)
@@ -199,6 +246,10 @@ func runForest(c *core.Ctx, s fScenario, setupFail failFn, obs fObserver) *World
 	var snaps []fSnap
 	var lastUndone *fSnap // the block undone most recently, while nothing has been applied since
 	st := &fState{W: w}
+	quietRng := rand.New(rand.NewSource(int64(s.Tag*0x9E3779B97F4A7C15 + 0x9e7)))
+	if s.Sparse {
+		c.Count("scenarios_with_sparse_observation", 1)
+	}
 	slotsToHashes := func(slots []int) []Hash {
 		var out []Hash
 		for _, sl := range slots {
@@ -476,6 +527,13 @@ func runForest(c *core.Ctx, s fScenario, setupFail failFn, obs fObserver) *World
 			return w
 		}
 		st.F = w.M.Forest()
+		st.Quiet = s.Sparse && oi != len(s.Ops)-1 && (quietRng.Intn(2) == 0 || (op.Kind == "undo" && quietRng.Intn(2) == 0))
+		if st.Quiet {
+			c.Count("operations_left_unobserved_in_sparse_scenarios", 1)
+		}
+		if op.Kind == "block" && oi > 0 && s.Ops[oi-1].Kind == "undo" {
+			c.Count("blocks_applied_right_after_an_undo", 1)
+		}
 		if obs != nil {
 			obs(st)
 		}
